@@ -447,6 +447,8 @@ def run_key_sets(ctx):
                 ks = KeySet(keys)
                 got0 = [ident(k) for k in ks.keys]
                 exported = ks.as_dict(is_private=True)
+                # the shape of the model's keyset_as_dict (theorem keyset_export_is_keywise): entry i is key i's own export
+                ctx.compare("keyset_export_is_keywise", case, exported["keys"], [k.as_dict(is_private=True) for k in keys])
                 got1 = [ident(JsonWebKey.import_key(d)) for d in exported["keys"]]
                 ks2 = JsonWebKey.import_key_set(json.loads(ks.as_json(is_private=True))) if keys else None
                 got2 = [ident(k) for k in ks2.keys] if ks2 is not None else []
